@@ -30,6 +30,8 @@ type schedScenario struct {
 	MaxExec int
 	// AllowStatus lists terminal statuses other than "done" that are acceptable (none by default)
 	Class string // signature class of the scenario
+	// Accept, when set, replaces the comparison with Want: it returns "" or a description of what is wrong
+	Accept func(out []string) string
 }
 
 type schedWorker struct {
@@ -70,6 +72,11 @@ func (w *schedWorker) Item(idx int, emit func(vf.Violation), st sweep.Stats, sam
 			problem = x.Status
 		case x.Leaked:
 			problem = "goroutines-left-behind"
+		case sc.Accept != nil:
+			if msg := sc.Accept(x.Out); msg != "" {
+				problem = "not-linearizable"
+				x.Detail = msg
+			}
 		case gotS != wantS:
 			problem = "wrong-output"
 		}
